@@ -353,6 +353,26 @@ static void cv_case(const cfg_t *c, const call_t *k, int delta_choice) {
       vx_check(eq && nclass <= k->groups && match, key, "n=%d groups=%d: objects whose response does not influence a prediction do not form the test groups (equivalence %d, classes %d, equals observed folds %d)", n, k->groups, eq, nclass, match);
     }
   }
+  /* ---- optional outputs: each of the two output matrices may be NULL; what is returned in the other one must not depend on it
+   * (same seed, same schedule: bit for bit).  PLS and MLR only (the LDA workers take no residual matrix). */
+  if (c->algo != A_LDA && delta_choice == 0) {
+    MODELINPUT in = initModelInput();
+    in.mx = X; in.my = Y; in.nlv = c->algo == A_PLS ? (size_t)c->nlv : 0; in.xautoscaling = (size_t)c->xa; in.yautoscaling = (size_t)c->ya;
+    AlgorithmType at = c->algo == A_PLS ? _PLS_ : _MLR_;
+    for (int only = 0; only < 2; only++) {        /* 0: residuals only, 1: predictions only */
+      matrix *o; initMatrix(&o); NLOG = 0; LOG_OVER = 0; NONTERM = 0; TICKS = 0; srand_(1u); IN_CV = 1;
+      matrix *op = only ? o : NULL, *orr = only ? NULL : o;
+      if (k->scheme == S_LOO) LeaveOneOut(&in, at, op, orr, (size_t)k->nthreads, NULL, 0);
+      else if (k->scheme == S_KFOLD) { uivector *g; NewUIVector(&g, (size_t)c->n); for (int i = 0; i < c->n; i++) g->data[i] = (size_t)k->labels[i]; KFoldCV(&in, g, at, op, orr, (size_t)k->nthreads, NULL, 0); DelUIVector(&g); }
+      else { INLINE_THREADS = k->nthreads > 1; BootstrapRandomGroupsCV(&in, (size_t)k->groups, (size_t)k->iters, at, op, orr, (size_t)k->nthreads, NULL, 0); INLINE_THREADS = 0; }
+      IN_CV = 0; vx_transition(1);
+      const matrix *want = only ? pred : res; int same = o->row == want->row && o->col == want->col; double dmax = 0;
+      for (size_t i = 0; same && i < o->row; i++) for (size_t j = 0; j < o->col; j++) { double a = o->data[i][j], b = want->data[i][j]; if (!(a == b || (a != a && b != b))) { double d = fabs(a - b); if (!(d <= dmax)) dmax = d; } }
+      snprintf(key, sizeof key, "optional-output|%s|%s", fn, only ? "predictions-only" : "residuals-only");
+      vx_check(same && dmax == 0, key, "%s n=%d: the %s returned when the other output is NULL differ from the call with both outputs (%zux%zu vs %zux%zu, max difference %g)", al, n, only ? "predictions" : "residuals", o->row, o->col, want->row, want->col, dmax);
+      DelMatrix(&o);
+    }
+  }
   uint64_t h = hm_hash(pred, (uint64_t)(k->scheme * 16 + c->algo)); h = hm_hash(res, h);
   vx_outcome(h);
   DelMatrix(&pred); DelMatrix(&res); DelMatrix(&X); DelMatrix(&Y);
@@ -502,7 +522,7 @@ static void body(void) {
 int main(int argc, char **argv) {
   vg_seed(getenv("VERIF_SEED") ? atol(getenv("VERIF_SEED")) : 0);
   vx_describe("alphabet", "helpers: nobj 1..30 x groups 1..nobj x seeds 0..7[63], testsize .1...9; LOO x {PLS nlv<=2[3] ny<=2[3] scaling, MLR p<=3[6] ny<=3, LDA 2-3 classes} x n {6,7,9,12[,20,30]} x threads {1,2,3,n+1[,8]}; KFoldCV x {PLS,MLR,LDA} x every label vector in {0,1,2}^6 x threads {1,2,4} [and {0..3}^7 x 2 threads]; Bootstrap x {PLS,MLR,LDA} x n {6,8,9[,12]} x groups 1..n x iterations {1,2,3,4,6,12}, 1 thread; each followed by n re-runs with one response changed");
-  vx_describe("oracle", "reported value = (mean over sweeps of) public-API refit on the other folds (allowance 1e3*eps*n*kappa^2*scale, kappa of the training design by long-double SVD); own-response change leaves own prediction bit-identical; folds observed at PLS/MLR/LDA entry points are disjoint, exhaustive partitions; influence-matrix reconstruction of the bootstrap partition; residual = prediction - observed[col mod ny]");
+  vx_describe("oracle", "reported value = (mean over sweeps of) public-API refit on the other folds (allowance 1e3*eps*n*kappa^2*scale, kappa of the training design by long-double SVD); own-response change leaves own prediction bit-identical; folds observed at PLS/MLR/LDA entry points are disjoint, exhaustive partitions; influence-matrix reconstruction of the bootstrap partition; residual = prediction - observed[col mod ny]; each output returned alone (other one NULL) = the call with both outputs, bit for bit");
   vx_set_shard_depth(5);
   vx_expect_outcomes(500);
   return vx_main(argc, argv, "C05", body);
